@@ -408,6 +408,26 @@ def normalise (jag : Bool) : Entry → ROut
         | Option.none => .arr dt [rows.flatten.length] rows.flatten
   | .dict kv => .dict (kv.filterMap (fun p => p.2.map (fun v => (p.1, v))))
 
+/-! ## `packSpecialData` called directly on fixed-shape arrays with None between them
+(the array branch of `replaceNonesWithNonsense`, the `ndim > 1` branch of `replaceNonsenseWithNones`;
+`_writeParams` itself sends such lists to `JaggedArray`) -/
+
+/-- every None becomes an array filled with the sentinel of the element type (`type(next(val.flat))`, a numpy
+scalar type); `none` = KeyError → TypeError (no sentinel for that type) -/
+def replaceNonesArr (dt : DT) (size : Nat) (xs : List (Option (List SV))) : Option (List (List SV)) :=
+  match noneMap true dt with
+  | Option.none => Option.none
+  | some sent => some (xs.map (fun x => x.getD (List.replicate size sent)))
+
+inductive RowOut | none | full (row : List SV) | part (row : List (Option SV))
+  deriving Repr, DecidableEq
+
+/-- one row of the `data.ndim > 1` branch of `replaceNonsenseWithNones` -/
+def readRowArr (dt : DT) (row : List SV) : RowOut :=
+  if row.all (readIsNone dt) then .none
+  else if row.any (readIsNone dt) then .part (row.map (fun v => if readIsNone dt v then Option.none else some v))
+  else .full row
+
 /-! ## Flags -/
 
 structure FlagCls where
